@@ -91,6 +91,11 @@ let () =
         | "grattr2" :: _ -> Some (OGrAttr2 (zi 1, zi 2, zi 3))
         | "vgattr2" :: _ -> Some (OVgAttr2 (zi 1, zi 2, zi 3, zi 4))
         | "vsattr2" :: _ -> Some (OVsAttr2 (zi 1, zi 2, zi 3, zi 4))
+        | "sdfill" :: _ -> Some (OSdFill (zi 1, zi 2))
+        | "sdattrfill" :: _ -> Some (OSdAttrFill (zi 1, zi 2, zi 3))
+        | "lonevs" :: _ -> Some (OLoneVs (zi 1))
+        | "lonevg" :: _ -> Some (OLoneVg (zi 1))
+        | "hlhole" :: _ -> Some (OHlHole (zi 1, zi 2, zi 3))
         | "seekat" :: _ -> Some (OSeekAt (zi 1, zi 2, zi 3, zi 4, zi 5, zi 6))
         | "chunkfill" :: _ -> Some (OChunkFill (zi 1, zi 2, zi 3))
         | "fn_vshdrlen" :: _ ->
@@ -193,12 +198,20 @@ let () =
             | _ -> ())
        | Some ONewRef when iz h.h_maxref >= 0 ->
            (match m_newref_next h.h_maxref with Some r -> m := Printf.sprintf "ok %d" (iz r) | None -> ())
-       | Some (OSdAttr (_, _, _, nt, count)) when iz (ntsize nt) > 0 -> m := okf (m_sdsetattr (ntsize nt) count)
+       | Some (OSdAttr (k, obj, a, nt, count)) when iz (ntsize nt) > 0 ->
+           (* SDsetattr's own guard, then the two count limits on the way: a new coordinate variable, a new attribute *)
+           let nsets = (match file_get d k with Some l -> List.length l | None -> 0) in
+           let isnew = (file_get d (attr_key k obj a) = None) in
+           m := okf (m_sdsetattr (ntsize nt) count
+                     && not (sd_needs_coordvar d k obj && truth (coordvar_too_many_vars (z nsets)))
+                     && not (isnew && truth (putattr_too_many (attr_count_of d k obj))))
        | Some (OGrAttr2 (nt, c1, c2)) when iz (ntsize nt) > 0 ->
            let r1 = m_grsetattr (ntsize nt) c1 and r2 = m_grsetattr (ntsize nt) c2 in
            m := Printf.sprintf "ok %d %d %d" (if r1 then 1 else 0) (if r2 then 1 else 0)
                   (if r2 then iz c2 else if r1 then iz c1 else -1)
-       | Some (OSdCreate (_, nlen, rank)) -> m := okf (m_sdcreate_ok rank nlen)
+       | Some (OSdCreate (k, nlen, rank)) ->
+           let nsets = (match file_get d k with Some l -> List.length l | None -> 0) in
+           m := okf (m_sdcreate_ok rank nlen && not (truth (sdcreate_too_many_vars (z nsets))))
        | Some (OSdMax n) when iz d.d_size <> 0 ->
            let slots = resize d.d_slots (let rec nat_of k = if k <= 0 then O else S (nat_of (k - 1)) in nat_of (iz d.d_size)) in
            let (r, _) = m_reset_maxopen n d.d_sys (d_open_count d) slots in
